@@ -153,6 +153,15 @@ func buildStores(dir string) {
 		addEnc("store.TxHeader.ReadFrom", fmt.Sprintf("txhdr-v1-synthetic-extra%d", n), hb)
 		addEnc("store.TxMetadata.ReadFrom", fmt.Sprintf("txmd-truncated+extra%d", n), md.Bytes())
 	}
+	for _, n := range []int{1, 256} { // the extra attribute alone (room is left for the other attribute)
+		md := store.NewTxMetadata()
+		must(md.WithExtra(bytes.Repeat([]byte{0xCD}, n)))
+		hdr := &store.TxHeader{ID: 9, Ts: fixedTime.Unix(), Version: 1, Metadata: md, NEntries: 3, BlTxID: 8}
+		hb, err := hdr.Bytes()
+		must(err)
+		addEnc("store.TxHeader.ReadFrom", fmt.Sprintf("txhdr-v1-synthetic-only-extra%d", n), hb)
+		addEnc("store.TxMetadata.ReadFrom", fmt.Sprintf("txmd-only-extra%d", n), md.Bytes())
+	}
 	md := store.NewTxMetadata()
 	md.WithTruncatedTxID(1 << 40)
 	addEnc("store.TxMetadata.ReadFrom", "txmd-truncated", md.Bytes())
